@@ -1,11 +1,12 @@
 From Coq Require Extraction.
 From Coq Require Import ExtrOcamlBasic.
-From H3V Require Import Base.Bytes Spec.RFC9000 Model.Varint Model.VarintExtra.
+From H3V Require Import Base.Bytes Spec.RFC9000 Model.Varint Model.VarintExtra Model.ChunkedBuf Model.ChunkedVarint.
 Extraction Language OCaml.
 Extraction "C16_model.ml"
   N.add N.mul N.div_eucl N.ltb N.leb N.eqb len
   vi_size vi_encode vi_from_u64 vi_try_from_u64 vi_try_from_usize push_id_try_from vi_write_var vi_get_var vi_encoded_size vi_decode
   sid_initiator sid_dir sid_index sid_is_request sid_is_push sid_try_from sid_add
   sess_try_from sess_encode sess_decode sid_encode st_encode st_decode sid_display
+  vi_decode_buf vi_get_var_buf st_decode_buf sess_decode_buf
   rfc_vi_len rfc_vi_value rfc_vi_shortest rfc_vi_enc
   rfc_sid_client rfc_sid_bidi rfc_sid_index rfc_sid_make rfc_max_index.
